@@ -186,6 +186,8 @@ def _bool_norm(kind, values):
 
 def norm(node):
     """Canonical text: commutative operands sorted, redundant parentheses gone (via unparse)."""
+    if isinstance(node, ast.NamedExpr):
+        return norm(node.target)        # `(x := E)` is compared as the name it binds
     if isinstance(node, ast.BinOp) and isinstance(node.op, _COMM):
         items = []
 
@@ -432,6 +434,8 @@ def prop(node):
     ('or', [f..]) | ('const', bool).  Comparison chains are conjunctions of their links, membership in a literal collection is
     a disjunction of equalities, `!=`, `>=`, `>`, `is not`, `not in` are the negations of `==`, `<`, `<=`, `is`, `in`
     (the operands compared in this code base are ints, strings and None)."""
+    if isinstance(node, ast.NamedExpr):
+        return prop(node.target)
     if isinstance(node, ast.BoolOp):
         return ('and' if isinstance(node.op, ast.And) else 'or', [prop(v) for v in node.values])
     if isinstance(node, ast.UnaryOp) and isinstance(node.op, ast.Not):
